@@ -1,0 +1,11 @@
+//go:build verif
+
+package sqlite
+
+import "github.com/resonatehq/resonate/internal/kernel/t_aio"
+
+// VerifExecute runs Execute on the store's worker. It exists only for
+// the external verification harness (build tag "verif").
+func (s *SqliteStore) VerifExecute(transactions []*t_aio.Transaction) ([][]*t_aio.Result, error) {
+	return s.worker.Execute(transactions)
+}
